@@ -47,6 +47,20 @@ SameObs(o, t) ==
 \* all resistances doubled: effective resistances double
 Scaling(o2, o3) == \A a \in 1..Len(o2.er) : \A b \in 1..Len(o2.er) : CloseRel(o3.er[a][b], 2 * o2.er[a][b])
 
+\* complex impedances z * r with z = 1 + 2i: every effective impedance is z times the effective resistance of
+\* r (linearity), the average is the mean over the pairs (real and imaginary part), the closeness is
+\* (n-1) / sum = closeness(r) / z = closeness(r) * (1 - 2i) / 5
+ComplexFails(o, c, tag) ==
+  IF o.exc # "" THEN {}
+  ELSE IF c.exc # "" THEN {"Applicable|complex:" \o c.exc \o tag}
+  ELSE LET n == Len(o.er)  pairs == (n * (n - 1)) \div 2 IN
+    (IF \E a \in 1..n : \E b \in 1..n : ~(CloseRel(c.er_re[a][b], o.er[a][b]) /\ CloseRel(c.er_im[a][b], 2 * o.er[a][b]))
+     THEN {"Scaling|complex effective_resistance" \o tag} ELSE {})
+    \cup (IF ~(/\ CloseRel(c.aer_re, RDiv(SumN(LAMBDA a : SumN(LAMBDA b : c.er_re[a][b], a + 1, n), 1, n), pairs))
+               /\ CloseRel(c.aer_im, RDiv(SumN(LAMBDA a : SumN(LAMBDA b : c.er_im[a][b], a + 1, n), 1, n), pairs)))
+          THEN {"Aggregates|complex average" \o tag} ELSE {})
+    \cup (IF \E a \in 1..n : ~(CloseRel(5 * c.ercc_re[a], o.ercc[a]) /\ CloseRel(5 * c.ercc_im[a], -2 * o.ercc[a]))
+          THEN {"Aggregates|complex closeness" \o tag} ELSE {})
 Fails(r, ev) ==
   IF ev.obs.exc # "" THEN {"Applicable|" \o ev.obs.exc}
   ELSE IF ev.twin.exc # "" THEN {"Applicable|twin:" \o ev.twin.exc}
@@ -75,6 +89,14 @@ Verdict(e) ==
                         THEN {"Scaling|effective_resistance(3/2)"} ELSE {}))
       all == f1 \cup {x \o "@update1" : x \in f2} \cup {x \o "@update2" : x \in f3}
              \cup {x \o "@update3(same array)" : x \in f4} \cup sc \cup s5
+             \cup (IF e.events[4].obs.exc # "" THEN {}
+                   ELSE IF e.big.exc # "" THEN {"Applicable|update(2^24 r2):" \o e.big.exc}
+                   ELSE IF \E a \in 1..e.n : ~Close(e.big.vcfb[a], e.events[4].obs.vcfb[a], Tol4)
+                        THEN {"Scaling|vertex_current_flow_betweenness(2^24)"}
+                   ELSE IF \E a \in 1..e.n : \E b \in 1..e.n : ~Close(e.big.ecfb[a][b], e.events[4].obs.ecfb[a][b], Tol4)
+                        THEN {"Scaling|edge_current_flow_betweenness(2^24)"} ELSE {})
+             \cup (IF e.n >= 2 THEN ComplexFails(e.events[2].obs, e.complex[1], "@construct")
+                                     \cup ComplexFails(e.events[4].obs, e.complex[2], "@update1") ELSE {})
   IN IF all = {} THEN <<"ACCEPT", "", "", "n" \o ToString(e.n)>>
      ELSE <<"REJECT", "Multi", JoinSet(all), "n" \o ToString(e.n)>>
 Verdicts == TLCEval([k \in 1..Len(Trace) |-> Verdict(Trace[k])])
